@@ -1,6 +1,18 @@
 ---- MODULE MC_Candidates ----
 EXTENDS Candidates
+\* x and y are in the genesis list; w registered with the contract after the list was made (it enters at the first election)
 OrderXY == <<"x", "y">>
 \* x sits just below the ceiling, y just above the floor (the two saturation points of the score)
-InitXY == [c \in {"x", "y"} |-> IF c = "x" THEN 499 ELSE 2]
+InitXYW == [c \in {"x", "y", "w"} |-> CASE c = "x" -> 499 [] c = "y" -> 2 [] OTHER -> 7]
+\* w has no pledge (the deposit of such a candidate is 0)
+PledgeXYW == [c \in {"x", "y", "w"} |-> CASE c = "x" -> 3 [] c = "y" -> 5 [] OTHER -> 0]
+\* three classes of hashes: every candidate heads the list under one of them
+Perm3 == [s \in {"s1", "s2", "s3", "empty"} |->
+            CASE s = "s1" -> <<"x", "y", "w">> [] s = "s2" -> <<"w", "y", "x">> [] s = "s3" -> <<"y", "w", "x">> [] OTHER -> <<"x", "y", "w">>]
+\* proposer (PreRunBlock + CheckBlock), validator (CheckBlock), validator that saw the block in two rounds, fast-sync node
+Rep4 == <<"p", "v1", "v2", "f">>
+EvExport    == <<2, 1, 1, 1>>
+EvDesign    == <<2, 2, 1, 1>>
+EvExportBig == <<2, 2, 1, 1, 1>>
+EvDesignBig == <<2, 2, 2, 1, 1, 1>>
 ====
